@@ -20,7 +20,7 @@ def make_stream(rng, version):
         if s[0] != "in":
             continue
         line = s[1]
-        if line.split(";")[2:5] == ["3", "0", "1"] or ";3;0;1;" in line or ";3;1;1;" in line:
+        if is_time_request(line):
             continue  # time replies differ between runs by construction
         b = line.replace("\n", " ").encode("utf-8", "replace")
         k = rng.random()
@@ -32,6 +32,28 @@ def make_stream(rng, version):
     if rng.random() < 0.5:
         out += rng.choice([b"1;255;3;0;6", b"1;1;1;0;2;1", b"\r", b"garbage", "1;1;1;0;47;é".encode()[:-1]])
     return bytes(out)
+
+
+def is_time_request(line):
+    parts = line.split(";")
+    if len(parts) < 6:
+        return False
+    try:
+        return int(parts[2]) == 3 and int(parts[4]) == 1
+    except ValueError:
+        return False
+
+
+def norm_sent(lines):
+    """Time replies carry the wall clock: compare them as 'T' (should a time request slip into a stream after all)."""
+    out = []
+    for l in lines:
+        p = l.split(";")
+        if len(p) == 6 and p[2:5] == ["3", "0", "1"] and p[5].strip().lstrip("-").isdigit():
+            out.append(";".join(p[:5]) + ";T\n")
+        else:
+            out.append(l)
+    return out
 
 
 def ref_lines(stream):
@@ -107,7 +129,7 @@ def run_one(version, flavour, policy, stream, cuts, proto_kind="base"):
         crashed = eng.pump_exc
     except Exception as exc:
         crashed = exc
-    sent = [l for (_s, _o, l) in eng.sent]
+    sent = norm_sent([l for (_s, _o, l) in eng.sent])
     return {"state": projection(eng.gw.sensors), "sent": sent, "kinds": list(eng.sent_kind), "crashed": crashed,
             "lines": [d for (_o, d) in eng.logic_in]}
 
@@ -152,7 +174,7 @@ def run_reconnect(version, flavour, stream, cut):
         crashed = eng.pump_exc
     except Exception as exc:
         crashed = exc
-    return {"state": projection(eng.gw.sensors), "sent": [l for (_s, _o, l) in eng.sent], "kinds": list(eng.sent_kind),
+    return {"state": projection(eng.gw.sensors), "sent": norm_sent([l for (_s, _o, l) in eng.sent]), "kinds": list(eng.sent_kind),
             "crashed": crashed, "lines": [d for (_o, d) in eng.logic_in]}
 
 
